@@ -12,6 +12,15 @@ CHECKS = {
          "Trusted: TLC, spec/Ring.tla+Gates.tla as the documented definitions, numpy float comparison at 1e-9; sampled mode is a 6-sigma band.",
     technique="TLA+ exact-ring state machine model-checked by TLC; spec->code replay of every transition (conformance)",
     design="4/C01"),
+ "C06": dict(
+    text="TLC model-checks the algorithm model of the Whitfield ladder against the exact operator exp(-icP) (ring arithmetic, no phase "
+         "freedom) for every Pauli word, coefficient index in -M..M and control choice (C06PauliExp.tla); the gate lists actually emitted by "
+         "exp_pauliword_to_gates / get_exponentiated_qubit_operator_circuit / trotterize / TrotterSuzukiUnitary are recorded and validated by "
+         "TLC (C06Trace.tla): phase * U(circuit) must equal the first/second-order product of exact exponential factors.",
+    note="Coefficients x time on the 2pi/8 grid. Orders >= 4 not decided (irrational Suzuki coefficients). The commutator bound is a theorem "
+         "about the product formula; the check decides that the circuit IS the product formula in the operator's term order. Trusted: TLC, Ring/Gates/Pauli modules (self-checked by LibCheck.tla).",
+    technique="TLC model check of the construction + TLC trace validation of emitted gate lists (exact unitaries)",
+    design="4/C06"),
 }
 
 def main():
